@@ -2,7 +2,7 @@
 oracle `MagOracle.checkC11` on generated magnetic crystals (see checks/magpipe.py)."""
 from checks import magpipe
 
-PROPS = [("Moyo.Props.C11", "Moyo/Props/C11.lean")]
+PROPS = [("Moyo.Props.C11", "Moyo/Props/C11.lean"), ("Moyo.Props.C11Stages", "Moyo/Props/C11Stages.lean")]
 
 TRUSTED = [
     "premise validation of the generator (the magnetic symmetry group of the generated structure is exactly the generating group: position gap 0.2 A, moment gap 0.05, i.e. >= 50 x the tolerances used) is a brute-force search over (R,t,theta) in Rust, independent of moyo's search code",
@@ -20,7 +20,7 @@ def run(tier, seed):
     return magpipe.run_property(
         "C11", tier, seed, PROPS,
         "G-mag cases (see plan); a case is non-trivial when a dataset was returned with >= 2 magnetic operations for a re-described input (re-based, shifted, rotated, permuted, supercell, reversed or zero moments); distinct = distinct input magnetic cells + parameters",
-        nontrivial, trusted=TRUSTED)
+        nontrivial, trusted=TRUSTED, stages=["s8m", "s9m", "s4m", "s10m"])
 
 
 def replay(path):
